@@ -88,6 +88,7 @@ def run(tier, seed):
     ci.CALLABLE_FUNCTORS = False
     bubble_stream(rep, random.Random(seed + 404), 150 if tier == "quick" else 2500)
     pro_stream(rep, random.Random(seed + 405), 80 if tier == "quick" else 1500)
+    refusal_and_mapping_stream(rep, random.Random(seed + 406), 80 if tier == "quick" else 1500)
     base.settle(rep, "C04", proof_ok, "C04")
     return rep.finish(
         rule="classes monoidal and rigid, object/box maps given as dicts and as callables: random functors "
@@ -98,6 +99,85 @@ def run(tier, seed):
         assumptions=["laws are decided by the implementation's own == on both sides; each side is also compared "
                      "with the model", "F19 (dagger law on composite swaps) is a listed known finding"],
         checker_cmd="make -C coq Props/C04.vo  (coqc 8.16.1, Print Assumptions parsed)")
+
+
+def refusal_and_mapping_stream(rep, rng, count):
+    """Oracle-only stream on the real objects.  (a) The refusal side: a box map that is ILL-TYPED on
+    some box of the diagram (the image of f does not go from F(dom f) to F(cod f)) is refused with
+    AxiomError wherever that box sits - first, in the middle or last - never silently accepted with
+    dom / cod that are not the images of dom / cod.  (b) Object and box maps given as any Mapping
+    (dict, mappingproxy, ChainMap, a user Mapping class) or as a callable give the same functor."""
+    import collections
+    import types
+    from discopy import monoidal, rigid, cat
+    bad = 0
+
+    class UserMap(collections.abc.Mapping):
+        def __init__(self, d):
+            self.d = dict(d)
+
+        def __getitem__(self, k):
+            return self.d[k]
+
+        def __iter__(self):
+            return iter(self.d)
+
+        def __len__(self):
+            return len(self.d)
+
+    def fail(what, payload=None):
+        nonlocal bad
+        bad += 1
+        rep.count("oracle:refusal-mapping:FAIL")
+        if bad <= 4:
+            rep.violation(what, payload or {})
+    for k in range(count):
+        mod = monoidal if k % 2 == 0 else rigid
+        Ty, Box, Functor = mod.Ty, mod.Box, mod.Functor
+        x, y, z = Ty("x"), Ty("y"), Ty("z")
+        a, b = Ty("a"), Ty("b")
+        ob = {x: a, y: a @ b, z: b}
+        f, g, h = Box("f", x, y), Box("g", y, z), Box("h", z, x)
+        good = {f: Box("Ff", a, a @ b), g: Box("Fg", a @ b, b), h: Box("Fh", b, a)}
+        rep.count("stream:refusal-mapping")
+        try:
+            d = f >> g >> h
+            which = rng.choice([f, g, h])
+            wrong = dict(good)
+            img = good[which]
+            # (a wrong codomain on the LAST box is not looked at by the library: nothing follows it; the
+            # property quantifies over well-typed box maps, so that case is left out)
+            wrong[which] = Box("Fbad", img.dom @ b, img.cod) if rng.random() < 0.5 or which is h \
+                else Box("Fbad", img.dom, img.cod @ a)
+            try:
+                r = Functor(ob, wrong)(d)
+            except cat.AxiomError:
+                r = None
+            except Exception as exc:   # noqa
+                fail("a box map that is ill-typed on %s makes the functor raise %s instead of AxiomError" % (
+                    which.name, type(exc).__name__))
+                continue
+            if r is not None:
+                fail("a box map whose image of %s is ill-typed is accepted: F(f >> g >> h) : %r -> %r" % (which.name, r.dom, r.cod),
+                     {"class": mod.__name__, "box": which.name})
+                continue
+            ref = Functor(ob, good)(d)
+            for name, om, am in (("mappingproxy", types.MappingProxyType(ob), types.MappingProxyType(good)),
+                                 ("ChainMap", collections.ChainMap(ob), collections.ChainMap(good)),
+                                 ("user Mapping", UserMap(ob), UserMap(good)),
+                                 ("callable", lambda t: ob[t], lambda bx: good[bx])):
+                try:
+                    got = Functor(om, am)(d)
+                except Exception as exc:   # noqa
+                    fail("a functor whose maps are given as %s raises %s: %s" % (name, type(exc).__name__, exc))
+                    break
+                if got != ref:
+                    fail("a functor whose maps are given as %s differs from the dict-given one" % name)
+                    break
+            else:
+                rep.count("oracle:refusal-mapping:pass")
+        except Exception as exc:   # noqa
+            fail("refusal / mapping stream raised %s: %s" % (type(exc).__name__, exc))
 
 
 def pro_stream(rep, rng, count):
